@@ -232,3 +232,47 @@ Theorem loop_energy_closure_const_cp : forall c m l Tflow Treturn,
   chained Tflow l Treturn ->
   duties (fun _ => c) m l = cp_res_res_qext_w m Tflow (fun _ => c) Treturn.
 Proof. intros. rewrite (loop_energy_closure_lemma _ m l Tflow Treturn H), discretisation_const. ring. Qed.
+
+(* ------------------------------------------------------------------------------------------------------------
+   6. per element: what the circulation pump reports vs. the mean-c_p heat of the same temperature step *)
+Theorem pump_heat_per_element_lemma : forall m tout (cp : R -> R) tin,
+  cp_res_res_qext_w m tout cp tin =
+  m * cbar cp tin tout * (tout - tin) + (1 / 2) * m * (cp tout - cp tin) * (tout + tin).
+Proof. intros. unfold cp_res_res_qext_w, cbar. cbv zeta. field. Qed.
+
+Theorem pump_heat_constant_cp_lemma : forall m tout c tin,
+  cp_res_res_qext_w m tout (fun _ => c) tin = m * c * (tout - tin) /\
+  cp_res_res_qext_w m tout (fun _ => c) tin = - (m * c * cp_res_res_deltat_k m tout (fun _ => c) tin).
+Proof. intros. unfold cp_res_res_qext_w, cp_res_res_deltat_k. cbv zeta. split; ring. Qed.
+
+(* ------------------------------------------------------------------------------------------------------------
+   7. flow against the declared direction (controlled_mdot < 0).  The thermal kernel works with |m| and the
+      flow-corrected inlet, the hooks multiply by the signed m: the duty equation of the thermal row is
+      [duty_abs].  For m > 0 it is [duty_eq]; for m < 0 the set-points are NOT met *)
+Definition duty_abs (cp : R -> R) (m Q tin tout : R) : Prop := Q = Rabs m * cbar cp tin tout * (tin - tout).
+
+Lemma duty_abs_pos : forall cp m Q tin tout, 0 < m -> (duty_abs cp m Q tin tout <-> duty_eq cp m Q tin tout).
+Proof. intros. unfold duty_abs, duty_eq. rewrite Rabs_pos_eq by lra. tauto. Qed.
+
+Theorem mode_MF_DT_negative_mdot : forall m Q0 tout DT TR cp tin,
+  m < 0 -> cbar cp tin tout <> 0 ->
+  duty_abs cp m (hc_bt_QEXT m Q0 tout DT 1 TR cp tin) tin tout -> tin - tout = - DT.
+Proof.
+  intros m Q0 tout DT TR cp tin Hm Hc H. unfold duty_abs in H.
+  destruct (hook_cp_is_branch_cp m Q0 tout DT TR cp tin) as [E _]. rewrite E in H.
+  assert (Eb : branch_cp_cp tout cp tin = cbar cp tin tout) by (unfold branch_cp_cp, cbar; cbv zeta; lra).
+  rewrite Eb, Rabs_left in H by assumption.
+  apply (Rmult_eq_reg_l (m * cbar cp tin tout)); [lra|]. apply Rmult_integral_contrapositive; split; [lra|assumption].
+Qed.
+
+Theorem mode_MF_TR_negative_mdot : forall m Q0 tout DT TR cp tin,
+  m < 0 -> cbar cp tin tout <> 0 ->
+  duty_abs cp m (hc_bt_QEXT m Q0 tout DT 2 TR cp tin) tin tout -> tout = 2 * tin - TR.
+Proof.
+  intros m Q0 tout DT TR cp tin Hm Hc H. unfold duty_abs in H.
+  destruct (hook_cp_is_branch_cp m Q0 tout DT TR cp tin) as [_ E]. rewrite E in H.
+  assert (Eb : branch_cp_cp tout cp tin = cbar cp tin tout) by (unfold branch_cp_cp, cbar; cbv zeta; lra).
+  rewrite Eb, Rabs_left in H by assumption.
+  assert (tin - TR = - (tin - tout)); [|lra].
+  apply (Rmult_eq_reg_l (m * cbar cp tin tout)); [lra|]. apply Rmult_integral_contrapositive; split; [lra|assumption].
+Qed.
